@@ -7,7 +7,7 @@ unrollings cheap.  CRC5/CRC16 of host packets are computed with the repo's own s
 C30 proves these equal the USB standard), every stage assigned to a named Signal.
 
 Slot timeline (t = position in slot):
-  t=1..4   token  (rx_active, PID, 2 bytes)            kinds SETUP / IN / OUT / SOF
+  t=1..4   token  (rx_active, PID, 2 bytes)            kinds SETUP / IN / OUT / SOF / PING
   t=1..2   lone handshake ACK                         kind HSK
   t=7..    DATA packet of SETUP (8 bytes) or OUT (olen bytes), CRC optionally corrupted
   t=ACK_T  host ACK of the device's IN data (kind IN, flag=1, only if the device sent a data packet in this slot)
@@ -16,7 +16,7 @@ The device transmits with tx_ready = 1 (every tx_valid cycle is one accepted byt
 from amaranth import *
 from amaranth.hdl import Array
 
-KIND_NONE, KIND_SETUP, KIND_IN, KIND_OUT, KIND_SOF, KIND_HSK = 0, 1, 2, 3, 4, 5
+KIND_NONE, KIND_SETUP, KIND_IN, KIND_OUT, KIND_SOF, KIND_HSK, KIND_PING = 0, 1, 2, 3, 4, 5, 6
 
 
 class SlottedHost:
@@ -75,7 +75,7 @@ class SlottedHost:
                         m.d.comb += cur.eq(lst[i])
         legal = Const(1)
         for i in range(n):
-            legal = legal & (self.kind[i] <= KIND_HSK) & (self.olen[i] <= self.max_out)
+            legal = legal & (self.kind[i] <= KIND_PING) & (self.olen[i] <= self.max_out)
         m.d.comb += self.legal.eq(legal)
 
         # token fields and CRCs (repo's own functions, staged)
@@ -108,8 +108,10 @@ class SlottedHost:
                 m.d.comb += tok_pid.eq(0xE1)
             with m.Case(KIND_SOF):
                 m.d.comb += tok_pid.eq(0xA5)
+            with m.Case(KIND_PING):
+                m.d.comb += tok_pid.eq(0xB4)
         is_tok = (self.cur_kind == KIND_SETUP) | (self.cur_kind == KIND_IN) | (self.cur_kind == KIND_OUT) | \
-                 (self.cur_kind == KIND_SOF)
+                 (self.cur_kind == KIND_SOF) | (self.cur_kind == KIND_PING)
         a, v, d = self.rx_active, self.rx_valid, self.rx_data
         # data phase length
         dlen = Signal(4, name=f"{p}_dlen")
@@ -214,6 +216,7 @@ SLOT_OPTIONS = {
     "P": dict(kind=KIND_OUT, flag=0, dpid=1),   # OUT + valid DATA1 (control status stage)
     "Q": dict(kind=KIND_OUT, flag=0, dpid=0),   # OUT + valid DATA0
     "N": dict(kind=KIND_NONE, flag=0),     # idle slot
+    "G": dict(kind=KIND_PING, flag=0),     # PING token (no data phase)
     "F": dict(kind=KIND_SOF, flag=0),      # start of frame
     "f": dict(kind=KIND_SOF, flag=1),      # start of frame with corrupted CRC5
 }
